@@ -36,7 +36,7 @@ ASSUMPTIONS = [
     'trusted_gateways=None (the documented default: everybody may forward) is not asserted',
     'workload restriction: a header is never both structurally malformed and built for an absent user with password "None" (two known defects would chain in the twin)',
 ]
-REQUIRED = ['second_check_on_same_request', 'ref_selfcheck_ok', 'direct_accept_digest_qop_auth', 'direct_accept_digest_rfc2069', 'direct_accept_basic_encrypt_str',
+REQUIRED = ['second_check_on_same_request', 'other_table_consulted_before_the_configured_one_ever_saw_the_credentials', 'ref_selfcheck_ok', 'direct_accept_digest_qop_auth', 'direct_accept_digest_rfc2069', 'direct_accept_basic_encrypt_str',
             'direct_accept_basic_encrypt_callable', 'users_callable_dict', 'users_callable_lookup',
             'refused_returning_false', 'refused_by_exception', 'refused_wrong_realm', 'refused_unknown_user', 'refused_wrong_password',
             'refused_tampered_response', 'refused_field_digest_mismatch', 'malformed_digest_header_sent', 'unknown_scheme_sent',
@@ -260,6 +260,30 @@ def observe_auth_direct(case):
 
     xxx = tools.basic_auth if case['idiom'] == 'basic' else tools.digest_auth
     obs = {}
+
+    def another_table_first():
+        # 4. the same request object checked twice: first against ANOTHER area's table/realm in which these credentials do verify (a
+        #    site-wide filter; the same user before a password change), then against the configured one - the second verdict must not
+        #    depend on the first.  With case['prior_first'] this comes before everything else the process does with these credentials.
+        h = case['hdr']
+        obs['second_check'] = None
+        if h and 'user' in h and 'password' in h and 'raw' not in h:
+            req, resp = fresh()
+            other_realm = h.get('realm', realm) if h.get('scheme') == 'digest' else realm + '-other-area'
+            other_users = {h['user']: h['password']}
+            try:
+                first = tools.check_auth(req, resp, other_realm, other_users, *((str,) if h.get('scheme') == 'basic' else ()))
+            except Exception:
+                first = None
+            if first is True:
+                users, extra = build_config(case)
+                try:
+                    obs['second_check'] = classify(tools.check_auth(req, resp, realm, users, *extra))
+                except Exception as e:
+                    obs['second_check'] = 'raised:' + type(e).__name__
+                obs['second_login'] = req.login
+    if case.get('prior_first'):
+        another_table_first()
     # 1. check_auth on its own
     users, extra = build_config(case)
     req, resp = fresh()
@@ -290,25 +314,8 @@ def observe_auth_direct(case):
     except Exception as e:
         obs['idiom'] = 'raised:' + type(e).__name__
     obs['idiom_login'] = req.login
-    # 4. the same request object checked twice: first against ANOTHER area's table/realm in which these credentials do verify (a
-    #    site-wide filter), then against the configured one - the second verdict must not depend on the first
-    h = case['hdr']
-    obs['second_check'] = None
-    if h and 'user' in h and 'password' in h and 'raw' not in h:
-        req, resp = fresh()
-        other_realm = h.get('realm', realm) if h.get('scheme') == 'digest' else realm + '-other-area'
-        other_users = {h['user']: h['password']}
-        try:
-            first = tools.check_auth(req, resp, other_realm, other_users, *((str,) if h.get('scheme') == 'basic' else ()))
-        except Exception:
-            first = None
-        if first is True:
-            users, extra = build_config(case)
-            try:
-                obs['second_check'] = classify(tools.check_auth(req, resp, realm, users, *extra))
-            except Exception as e:
-                obs['second_check'] = 'raised:' + type(e).__name__
-            obs['second_login'] = req.login
+    if not case.get('prior_first'):
+        another_table_first()
     for s in socks:
         s.close()
     signals = {
@@ -408,6 +415,8 @@ def run_auth(case):
         obs = observe_auth_direct(case)
         if obs.get('second_check') is not None:
             marks.add('second_check_on_same_request')
+            if case.get('prior_first'):
+                marks.add('other_table_consulted_before_the_configured_one_ever_saw_the_credentials')
         authed_any = bool(obs['authenticated_any'])
         authed_all = obs['authenticated_all']
     tag = '%s/%s' % (h['scheme'] if h and 'scheme' in h else ('raw' if h else 'none'), case['idiom'])
@@ -1125,6 +1134,13 @@ def auth_corpus():
                 out.append(A(D(password=pw, algorithm=alg), via=via))
                 out.append(A(D(password=pw, algorithm=alg, qop=None), via=via))
             out.append(A(D(password=pw, uri='/elsewhere'), via=via))
+        # credentials that verify against another table (another area; the same user before a password change) are offered there FIRST,
+        # under a nonce nothing else in this process has seen, then to the configured table
+        for k, alg in enumerate((None, 'MD5', 'MD5-sess', 'md5', 'junk')):
+            for qop in ('auth', None):
+                out.append(A(D(password='wrong', algorithm=alg, qop=qop, nonce='prior-%s-%d-%s' % (via, k, qop)), via=via, prior_first=True))
+                out.append(A(D(password='admin', algorithm=alg, qop=qop, nonce='prior-ok-%s-%d-%s' % (via, k, qop)), via=via, prior_first=True))
+        out.append(A(B('admin', 'wrong'), 'basic', via=via, prior_first=True))
         # cross scheme
         out.append(A(D(), 'basic', via=via))
         out.append(A(D('admin', 'wrong'), 'basic', via=via))
@@ -1320,7 +1336,8 @@ def gen_auth(rng):
         case['hdr'] = h
         return case
     uri = request_uri(case)
-    h = D(user, pw, realm=realm, method=method, uri=uri, nonce=rng.choice(['dcd98b7102dd2f0e8b11d0f600bfb0c093', 'n', '', 'a:b']),
+    case['prior_first'] = rng.random() < 0.4
+    h = D(user, pw, realm=realm, method=method, uri=uri, nonce=rng.choice(['dcd98b7102dd2f0e8b11d0f600bfb0c093', 'n', '', 'a:b', 'n%08x' % rng.getrandbits(32)]),
           qop=rng.choice(['auth', 'auth', 'auth', None, None, 'auth-int', 'junk']),
           token=rng.choice(['Digest', 'Digest', 'digest', 'DIGEST']))
     if rng.random() < 0.3:
